@@ -151,6 +151,24 @@ def _cache_key(ctx, model, scope=None):
                   "hash is compared)" if "expr" in missing else
                   "calls with different extra arguments share results"),
                {"covers": sorted(got)})
+        # the node enters the key as itself, and nodes compare field by field
+        # with == (C01): 1 == 1.0 == True, so two nodes that differ only in
+        # the *type* of a constant somewhere below the root are one key;
+        # type(expr) tells types apart at the root only.  The key would have
+        # to carry something computed from the whole tree that is sensitive to
+        # the types in it.
+        deep = contains(ps.retval, lambda t: t[0] == "call" and isinstance(
+            t[1], str) and t[1] not in ("type", "hash", "id", "immutabledict",
+                                        "frozenset", "tuple")
+            and any(a == NODE for a in t[2]))
+        ctx.ob("T/get_cache_key/nested-constant-types", deep,
+               cm.module.loc(mem.node),
+               "the key carries a type-sensitive signature of the whole tree"
+               if deep else
+               "the cache key is (type(expr), expr, ...): the expression is "
+               "compared with ==, which does not tell 1, 1.0 and True apart "
+               "inside a node, so Sum((x, 1)) and Sum((x, 1.0)) share one "
+               "entry and whichever comes second gets the first one's result")
         # kwargs must enter through an order-insensitive hashable
         w = _kwargs_wrapper(mem.node, sig.kwarg) if sig.kwarg else "n/a"
         ok = w in ("immutabledict", "frozenset", "n/a") or (
